@@ -30,6 +30,15 @@ def trial (p : Prob) (u : Unif) : Bool := decide ((u.num : Int) * p.den < p.num 
 /-- What `random.randint(-v, v)` does with the draw `d` it is given: `ValueError` (empty range) when `v < 0`. -/
 def randintOk (v : Int) : Bool := decide (0 ≤ v)
 
+/-- A configured string value: node name, address, user name, password, port / protocol name … (the theorems never
+look inside; the driver and the rig pass the strings of the settings through). -/
+abbrev Val := String
+
+/-- `AbstractTAP._select_start_node` / `TAP001._select_target_ip`: the default when the configured list is empty (or
+`None`), otherwise `random.choice(xs)`; `k` is the index that draw selects (`none` = index outside the list, which a
+draw of `random.choice` never is). -/
+def pick (xs : List Val) (dflt : Val) (k : Nat) : Option Val := if xs.isEmpty then some dflt else xs[k]?
+
 /-! ### PeriodicAgent (random_agent.py) -/
 
 structure PeriodicCfg where
